@@ -173,8 +173,13 @@ StreamDev(T, dv) ==
 (* "irec_cancel" needs records that stay plausible *)
 CancelOk(T) == Len(T.irecs) >= 2 => (T.irecs[2].u >= 9 /\ T.irecs[2].n >= 1)
 
+(* size fields that exceed the truth by a power of two pass the header checks and are caught only when the Block ends: the  *)
+(* Index (Unpadded Size counts the now longer header) and the footer are written consistently, so nothing else is wrong      *)
+BigBlockDevs == {"cs_p32", "cs_p31", "cs_p62", "us_p32", "us_p31", "us_p33", "us_p62"}
 Dev1(f) ==
-    {[f EXCEPT !.streams[s].blocks[b] = BlockDev(f.streams[s].blocks[b], dv)] :
+    {IF dv \in BigBlockDevs
+     THEN [f EXCEPT !.streams[s] = MkStream(f.streams[s].check, [f.streams[s].blocks EXCEPT ![b] = BlockDev(f.streams[s].blocks[b], dv)], f.streams[s].pad)]
+     ELSE [f EXCEPT !.streams[s].blocks[b] = BlockDev(f.streams[s].blocks[b], dv)] :
         <<s, b, dv>> \in {t \in (1..Len(f.streams)) \X (1..2) \X BlockDevs :
                              /\ t[2] <= Len(f.streams[t[1]].blocks)
                              /\ BlockDevOk(f.streams[t[1]].blocks[t[2]], f.streams[t[1]].check, t[3])}}
@@ -194,6 +199,8 @@ DevBases ==
     IN {[streams |-> <<MkStream(c, two, 0)>>] : c \in Checks}
        \cup {[streams |-> <<MkStream(c, one, 4), MkStream(1, one, 0)>>] : c \in {1, 0}}
        \cup {[streams |-> <<MkStream(1, <<>>, 0)>>]}
+       \* one size field only, plain LZMA2: nothing else in the header constrains the Block
+       \cup {[streams |-> <<MkStream(c, <<BlockOf(Opt(BaseD, hc, ~hc, 1, 0))>>, 0)>>] : c \in {1, 0}, hc \in BOOLEAN}
 FileSpace0 == ValidFiles
              \cup (IF DevDepth >= 1 THEN UNION {Dev1(f) : f \in DevBases} ELSE {})
              \cup (IF DevDepth >= 2 THEN UNION {UNION {Dev1(g) : g \in Dev1(f)} : f \in {[streams |-> <<MkStream(1, <<BlockOf(Opt(BaseD, TRUE, TRUE, 2, 4))>>, 0)>>]}} ELSE {})
